@@ -1,8 +1,316 @@
 import PyPhysim.Model.Proto
-open PyPhysim.Proto
+import PyPhysim.Model.C09
+open PyPhysim.Proto PyPhysim.BD
 
--- stub: replaced when the C09 model is written
+/-!
+Line-protocol driver of the C09 model, instantiated at binary64.
+Complex matrices travel row-major, each scalar as two binary64 bit patterns
+(`re,im`), comma separated; real vectors as binary64 bit patterns; shapes are
+decimal.  Results of external kernels (`svd`, `matrix_rank`, `doWF`, `pinv`,
+`inv`, `calc_whitening_matrix`, the metric function) are inputs.
+-/
+
+/-- binary64 complex number -/
+structure CF where
+  re : Float
+  im : Float
+
+instance : Zero CF := ⟨⟨0, 0⟩⟩
+instance : One CF := ⟨⟨1, 0⟩⟩
+instance : Add CF := ⟨fun a b => ⟨a.re + b.re, a.im + b.im⟩⟩
+instance : Sub CF := ⟨fun a b => ⟨a.re - b.re, a.im - b.im⟩⟩
+instance : Mul CF := ⟨fun a b => ⟨a.re * b.re - a.im * b.im, a.re * b.im + a.im * b.re⟩⟩
+instance : Div CF := ⟨fun a b =>
+  let d := b.re * b.re + b.im * b.im
+  ⟨(a.re * b.re + a.im * b.im) / d, (a.im * b.re - a.re * b.im) / d⟩⟩
+instance : Zero Float := ⟨0.0⟩
+instance : One Float := ⟨1.0⟩
+instance : Cx Float CF :=
+  { ofReal := fun x => ⟨x, 0⟩, normSq := fun a => a.re * a.re + a.im * a.im, re := fun a => a.re,
+    conj := fun a => ⟨a.re, -a.im⟩ }
+instance : RFun Float := { sqrt := Float.sqrt, log2 := Float.log2 }
+
+def toMat (m n : Nat) (xs : Array CF) : Mat CF m n :=
+  fun i j => xs.getD (i.val * n + j.val) ⟨0, 0⟩
+
+def toVec (n : Nat) (xs : Array Float) : Fin n → Float := fun i => xs.getD i.val 0
+
+def pairs : List Float → Option (List CF)
+  | [] => some []
+  | re :: im :: rest => (pairs rest).map (fun t => ⟨re, im⟩ :: t)
+  | _ => none
+
+def emptyOk (s : String) : String := if s = "-" then "" else s
+
+/-- parse `count` complex numbers (2·count floats) -/
+def parseC (count : Nat) (s : String) : Option (Array CF) := do
+  let fs ← parseFloatList? (emptyOk s)
+  let ps ← pairs fs
+  if ps.length = count then some ps.toArray else none
+
+def parseR (count : Nat) (s : String) : Option (Array Float) := do
+  let fs ← parseFloatList? (emptyOk s)
+  if fs.length = count then some fs.toArray else none
+
+def showC (z : CF) : String := showFloat z.re ++ "," ++ showFloat z.im
+
+def showMat {m n : Nat} (A : Mat CF m n) : String :=
+  ",".intercalate ((List.finRange m).flatMap (fun i => (List.finRange n).map (fun j => showC (A i j))))
+
+def showVec {n : Nat} (v : Fin n → Float) : String :=
+  ",".intercalate ((List.finRange n).map (fun i => showFloat (v i)))
+
+def nats (l : List String) : Option (List Nat) := l.mapM String.toNat?
+
+/-- `K` blocks of `N × N`, concatenated -/
+def toBlocks (K N : Nat) (xs : Array CF) : Fin K → Mat CF N N :=
+  fun k i j => xs.getD (k.val * N * N + i.val * N + j.val) ⟨0, 0⟩
+
 def handle : List String → String
+  -- tilde K N k H -> rows | sub channel | tilde channel
+  | ["tilde", sK, sN, sk, h] => Id.run do
+      let some [K, N, k] := nats [sK, sN, sk] | return "bad-op"
+      let some H := parseC (K * N * (K * N)) h | return "bad-op"
+      if hk : k < K then
+        let H : Mat CF (K * N) (K * N) := toMat _ _ H
+        let k : Fin K := ⟨k, hk⟩
+        return toString (tildeIdx (N := N) k).length ++ "|" ++ showMat (rowBlock H k) ++ "|" ++
+          showMat (tildeChannel H k)
+      else return "bad-op"
+  -- user K N rank Hk VH1 VH2 S2 -> V0 | heq | V1 | Ms | sigma
+  | ["user", sK, sN, sr, hk, vh1, vh2, s2] => Id.run do
+      let some [K, N, rank] := nats [sK, sN, sr] | return "bad-op"
+      let T := K * N
+      let some Hk := parseC (N * T) hk | return "bad-op"
+      let some VH1 := parseC (T * T) vh1 | return "bad-op"
+      let some VH2 := parseC (N * N) vh2 | return "bad-op"
+      let some S2 := parseR N s2 | return "bad-op"
+      if nStreams T rank ≠ N then return "out-of-model"
+      if hN : N ≤ T then
+        let u := userBD hN (toMat N T Hk) (toMat T T VH1) (toMat N N VH2) (toVec N S2)
+        return showMat u.V0 ++ "|" ++ showMat u.heq ++ "|" ++ showMat u.V1 ++ "|" ++ showMat u.Ms ++ "|" ++
+          showVec u.sigma
+      else return "bad-op"
+  -- wf K N iPu MsBad sigma p -> gains | global | norms | max | normalized
+  | ["wf", sK, sN, ipu, ms, sg, p] => Id.run do
+      let some [K, N] := nats [sK, sN] | return "bad-op"
+      let some iPu := parseFloat? ipu | return "bad-op"
+      let some Ms := parseC (K * N * (K * N)) ms | return "bad-op"
+      let some sg := parseR (K * N) sg | return "bad-op"
+      let some p := parseR (K * N) p | return "bad-op"
+      let Ms : Mat CF (K * N) (K * N) := toMat _ _ Ms
+      let p := toVec (K * N) p
+      let G := globalWF Ms p
+      return showVec (wfGains (toVec (K * N) sg)) ++ "|" ++ showMat G ++ "|" ++
+        showList showFloat (blockNorms (K := K) (N := N) G) ++ "|" ++
+        showFloat (maxLoop (blockNorms (K := K) (N := N) G)) ++ "|" ++ showMat (normalizedWF (K := K) (N := N) iPu Ms p)
+  -- nowf K N iPu MsBad -> scaled
+  | ["nowf", sK, sN, ipu, ms] => Id.run do
+      let some [K, N] := nats [sK, sN] | return "bad-op"
+      let some iPu := parseFloat? ipu | return "bad-op"
+      let some Ms := parseC (K * N * (K * N)) ms | return "bad-op"
+      let Ms : Mat CF (K * N) (K * N) := toMat _ _ Ms
+      return showMat (noWF (K := K) (N := N) iPu Ms)
+  -- newh K N H Ms -> newH
+  | ["newh", sK, sN, h, ms] => Id.run do
+      let some [K, N] := nats [sK, sN] | return "bad-op"
+      let some H := parseC (K * N * (K * N)) h | return "bad-op"
+      let some Ms := parseC (K * N * (K * N)) ms | return "bad-op"
+      return showMat (newH (K := K) (N := N) (T := K * N) (toMat _ _ H) (toMat _ _ Ms))
+  -- stack K N blocks(T x N each, concatenated) -> hstack
+  | ["stack", sK, sN, bl] => Id.run do
+      let some [K, N] := nats [sK, sN] | return "bad-op"
+      let T := K * N
+      let some B := parseC (K * (T * N)) bl | return "bad-op"
+      let M : Fin K → Mat CF T N := fun k i j => B.getD (k.val * (T * N) + i.val * N + j.val) ⟨0, 0⟩
+      return showMat (stackCols M)
+  -- white K N H Ww -> filters | whitened channel
+  | ["white", sK, sN, h, ww] => Id.run do
+      let some [K, N] := nats [sK, sN] | return "bad-op"
+      let some H := parseC (K * N * (K * N)) h | return "bad-op"
+      let some Ww := parseC (K * N * N) ww | return "bad-op"
+      let F := whiteningFilters (toBlocks K N Ww)
+      let H : Mat CF (K * N) (K * N) := toMat _ _ H
+      return ",".intercalate ((List.finRange K).map (fun k => showMat (F k))) ++ "|" ++
+        showMat (whitenedChannel F H)
+  -- wrx K N W Ww -> receive filters of all users
+  | ["wrx", sK, sN, w, ww] => Id.run do
+      let some [K, N] := nats [sK, sN] | return "bad-op"
+      let some W := parseC (K * N * (K * N)) w | return "bad-op"
+      let some Ww := parseC (K * N * N) ww | return "bad-op"
+      let F := whiteningFilters (toBlocks K N Ww)
+      let W : Mat CF (K * N) (K * N) := toMat _ _ W
+      return ",".intercalate ((List.finRange K).map (fun k => showMat (whiteningRxFilter W F k)))
+  -- blocks K N A -> diagonal blocks | column blocks
+  | ["blocks", sK, sN, a] => Id.run do
+      let some [K, N] := nats [sK, sN] | return "bad-op"
+      let some A := parseC (K * N * (K * N)) a | return "bad-op"
+      let A : Mat CF (K * N) (K * N) := toMat _ _ A
+      return ",".intercalate ((List.finRange K).map (fun k => showMat (diagBlock A k))) ++ "|" ++
+        ",".intercalate ((List.finRange K).map (fun k => showMat (colBlock A k)))
+  -- cov N r pe nv E -> Re
+  | ["cov", sN, sr, pe, nv, e] => Id.run do
+      let some [N, r] := nats [sN, sr] | return "bad-op"
+      let some pe := parseFloat? pe | return "bad-op"
+      let some nv := parseFloat? nv | return "bad-op"
+      let some E := parseC (N * r) e | return "bad-op"
+      return showMat (covExtInt pe nv (toMat N r E))
+  -- red mode N T n iPu Hk Msk X G -> Pk | gram | normTerm | MsPk | heqRed | pbar | pinvArg
+  | ["red", mode, sN, sT, sn, ipu, hk, msk, x, g] => Id.run do
+      let some [N, T, n] := nats [sN, sT, sn] | return "bad-op"
+      let some iPu := parseFloat? ipu | return "bad-op"
+      let some Hk := parseC (N * T) hk | return "bad-op"
+      let some Msk := parseC (T * N) msk | return "bad-op"
+      let some G := parseC (n * n) g | return "bad-op"
+      if hn : n ≤ N then
+        let Pk? : Option (Mat CF N n) :=
+          if mode = "naive" ∨ mode = "eye" then some eyeCols
+          else if mode = "fixed" then (parseC (N * N) x).map (fun VH => leastCols (toMat N N VH) n hn)
+          else none
+        let some Pk := Pk? | return "bad-op"
+        let r := reduce iPu (toMat N T Hk) (toMat T N Msk) Pk (toMat n n G)
+        return showMat Pk ++ "|" ++ showMat (gram Pk) ++ "|" ++ showFloat r.normTerm ++ "|" ++ showMat r.MsPk ++ "|" ++
+          showMat r.heqRed ++ "|" ++ showMat r.pbar ++ "|" ++ showMat r.pinvArg
+      else return "bad-op"
+  -- rx N n Wp pbar heqRed Re -> Wk | sinrs | capacity
+  | ["rx", sN, sn, wp, pb, hr, re] => Id.run do
+      let some [N, n] := nats [sN, sn] | return "bad-op"
+      let some Wp := parseC (n * N) wp | return "bad-op"
+      let some pb := parseC (N * N) pb | return "bad-op"
+      let some hr := parseC (N * n) hr | return "bad-op"
+      let some re := parseC (N * N) re | return "bad-op"
+      let Wk := rxFilterRed (toMat n N Wp) (toMat N N pb)
+      let s := linearSINRs (toMat N n hr) Wk (toMat N N re)
+      return showMat Wk ++ "|" ++ showVec s ++ "|" ++ showFloat (shannon s)
+  -- argmax values -> best index | streams
+  | ["argmax", v] => Id.run do
+      let some vs := parseFloatList? (emptyOk v) | return "bad-op"
+      let b := argmaxFirst vs
+      return toString b ++ "|" ++ toString (streamsOfIndex b)
   | _ => "bad-op"
 
-def main : IO Unit := runDriver handle
+def showOut {T N : Nat} (o : ExtOut CF T N) : String :=
+  toString o.ns ++ "|" ++ toString o.cols ++ "|" ++ showMat o.Ms ++ "|" ++ showMat o.W
+
+/-- `K` matrices `r × c`, concatenated -/
+def toFamily (K r c : Nat) (xs : Array CF) : Fin K → Mat CF r c :=
+  fun k i j => xs.getD (k.val * (r * c) + i.val * c + j.val) ⟨0, 0⟩
+
+def toVecFamily (K N : Nat) (xs : Array Float) : Fin K → Fin N → Float :=
+  fun k i => xs.getD (k.val * N + i.val) 0
+
+/-- whole methods (`calcBD` … `enhancedDecide`) -/
+def handleWhole : List String → String
+  -- bdwf K N iPu H VH1s VH2s S2s p -> newH | Ms_good
+  | ["bdwf", sK, sN, ipu, h, vh1, vh2, s2, p] => Id.run do
+      let some [K, N] := nats [sK, sN] | return "bad-op"
+      let T := K * N
+      let some iPu := parseFloat? ipu | return "bad-op"
+      let some H := parseC (T * T) h | return "bad-op"
+      let some VH1 := parseC (K * (T * T)) vh1 | return "bad-op"
+      let some VH2 := parseC (K * (N * N)) vh2 | return "bad-op"
+      let some S2 := parseR (K * N) s2 | return "bad-op"
+      let some p := parseR (K * N) p | return "bad-op"
+      if hK : 0 < K then
+        let r := blockDiagonalize hK iPu (toMat T T H) (toFamily K T T VH1) (toFamily K N N VH2)
+          (toVecFamily K N S2) (toVec (K * N) p)
+        return showMat r.1 ++ "|" ++ showMat r.2
+      else return "bad-op"
+  -- bdnowf K N iPu H VH1s VH2s S2s -> newH | Ms_good
+  | ["bdnowf", sK, sN, ipu, h, vh1, vh2, s2] => Id.run do
+      let some [K, N] := nats [sK, sN] | return "bad-op"
+      let T := K * N
+      let some iPu := parseFloat? ipu | return "bad-op"
+      let some H := parseC (T * T) h | return "bad-op"
+      let some VH1 := parseC (K * (T * T)) vh1 | return "bad-op"
+      let some VH2 := parseC (K * (N * N)) vh2 | return "bad-op"
+      let some S2 := parseR (K * N) s2 | return "bad-op"
+      if hK : 0 < K then
+        let r := blockDiagonalizeNoWF hK iPu (toMat T T H) (toFamily K T T VH1) (toFamily K N N VH2)
+          (toVecFamily K N S2)
+        return showMat r.1 ++ "|" ++ showMat r.2
+      else return "bad-op"
+  -- wbd K N iPu H Wws VH1s VH2s S2s W -> pinv argument # user outputs
+  | ["wbd", sK, sN, ipu, h, ww, vh1, vh2, s2, w] => Id.run do
+      let some [K, N] := nats [sK, sN] | return "bad-op"
+      let T := K * N
+      let some iPu := parseFloat? ipu | return "bad-op"
+      let some H := parseC (T * T) h | return "bad-op"
+      let some Ww := parseC (K * (N * N)) ww | return "bad-op"
+      let some VH1 := parseC (K * (T * T)) vh1 | return "bad-op"
+      let some VH2 := parseC (K * (N * N)) vh2 | return "bad-op"
+      let some S2 := parseR (K * N) s2 | return "bad-op"
+      let some W := parseC (T * T) w | return "bad-op"
+      if hK : 0 < K then
+        let Wwf := toFamily K N N Ww
+        let arg := (blockDiagonalizeNoWF hK iPu (whiteningChannel Wwf (toMat T T H)) (toFamily K T T VH1)
+          (toFamily K N N VH2) (toVecFamily K N S2)).1
+        return showMat arg ++ "#" ++ "#".intercalate ((List.finRange K).map (fun k =>
+          showOut (whiteningBD hK iPu (toMat T T H) Wwf (toFamily K T T VH1) (toFamily K N N VH2)
+            (toVecFamily K N S2) (toMat T T W) k)))
+      else return "bad-op"
+  -- enone K N iPu H VH1s VH2s S2s k Wp -> pinv argument # output
+  | ["enone", sK, sN, ipu, h, vh1, vh2, s2, sk, wp] => Id.run do
+      let some [K, N, k] := nats [sK, sN, sk] | return "bad-op"
+      let T := K * N
+      let some iPu := parseFloat? ipu | return "bad-op"
+      let some H := parseC (T * T) h | return "bad-op"
+      let some VH1 := parseC (K * (T * T)) vh1 | return "bad-op"
+      let some VH2 := parseC (K * (N * N)) vh2 | return "bad-op"
+      let some S2 := parseR (K * N) s2 | return "bad-op"
+      let some Wp := parseC (N * N) wp | return "bad-op"
+      if hK : 0 < K then
+        if hk : k < K then
+          let arg := diagBlock (blockDiagonalizeNoWF hK iPu (toMat T T H) (toFamily K T T VH1)
+            (toFamily K N N VH2) (toVecFamily K N S2)).1 ⟨k, hk⟩
+          return showMat arg ++ "#" ++ showOut (enhancedNone hK iPu (toMat T T H) (toFamily K T T VH1)
+            (toFamily K N N VH2) (toVecFamily K N S2) (toMat N N Wp) ⟨k, hk⟩)
+        else return "bad-op"
+      else return "bad-op"
+  -- ered mode N T n iPu Hk Msk X G Wp -> output
+  | ["ered", mode, sN, sT, sn, ipu, hk, msk, x, g, wp] => Id.run do
+      let some [N, T, n] := nats [sN, sT, sn] | return "bad-op"
+      let some iPu := parseFloat? ipu | return "bad-op"
+      let some Hk := parseC (N * T) hk | return "bad-op"
+      let some Msk := parseC (T * N) msk | return "bad-op"
+      let some G := parseC (n * n) g | return "bad-op"
+      let some Wp := parseC (n * N) wp | return "bad-op"
+      if hn : n ≤ N then
+        let Pk? : Option (Mat CF N n) :=
+          if mode = "naive" then some eyeCols
+          else if mode = "fixed" then (parseC (N * N) x).map (fun VH => reductionMatrix (toMat N N VH) n hn)
+          else none
+        let some Pk := Pk? | return "bad-op"
+        return showOut (enhancedReduced iPu (toMat N T Hk) (toMat T N Msk) n Pk (toMat n n G) (toMat n N Wp))
+      else return "bad-op"
+  -- edec N T iPu Hk Msk VHre G_0;…;G_{N-1} Wp_0;…;Wp_{N-1} vals -> output
+  | ["edec", sN, sT, ipu, hk, msk, vh, gs, wps, vals] => Id.run do
+      let some [N, T] := nats [sN, sT] | return "bad-op"
+      let some iPu := parseFloat? ipu | return "bad-op"
+      let some Hk := parseC (N * T) hk | return "bad-op"
+      let some Msk := parseC (T * N) msk | return "bad-op"
+      let some VH := parseC (N * N) vh | return "bad-op"
+      let some vals := parseR N vals | return "bad-op"
+      let gl := (gs.splitOn ";").toArray
+      let wl := (wps.splitOn ";").toArray
+      if gl.size ≠ N ∨ wl.size ≠ N then return "bad-op"
+      let okG := (List.range N).all (fun i => (parseC ((i + 1) * (i + 1)) (gl.getD i "")).isSome)
+      let okW := (List.range N).all (fun i => (parseC ((i + 1) * N) (wl.getD i "")).isSome)
+      if !(okG && okW) then return "bad-op"
+      let G : (i : Fin N) → Mat CF (i.val + 1) (i.val + 1) :=
+        fun i => toMat _ _ ((parseC ((i.val + 1) * (i.val + 1)) (gl.getD i.val "")).getD #[])
+      let Wp : (i : Fin N) → Mat CF (i.val + 1) N :=
+        fun i => toMat _ _ ((parseC ((i.val + 1) * N) (wl.getD i.val "")).getD #[])
+      match enhancedDecide iPu (toMat N T Hk) (toMat T N Msk) (toMat N N VH) G Wp (toVec N vals) with
+      | .ok o => return showOut o
+      | .error e => return "error:" ++ toString e
+  | _ => "bad-op"
+
+def handleAll (toks : List String) : String :=
+  match toks with
+  | op :: _ =>
+    if op = "bdwf" ∨ op = "bdnowf" ∨ op = "wbd" ∨ op = "enone" ∨ op = "ered" ∨ op = "edec" then handleWhole toks
+    else handle toks
+  | [] => "bad-op"
+
+def main : IO Unit := runDriver handleAll
